@@ -27,7 +27,7 @@ def targets():
         from pyvc import libmodels, npfuncs, pdmodel
 
         _T = front.Targets(
-            ["ioos_qc.utils", "ioos_qc.qartod", "ioos_qc.argo", "ioos_qc.axds"],
+            ["ioos_qc.utils", "ioos_qc.qartod", "ioos_qc.argo", "ioos_qc.axds", "ioos_qc.config_creator.fx_parser", "ioos_qc.config_creator.config_creator"],
             np_model=npfuncs.NP,
             pd_model=pdmodel.PD,
             builtins_model=bm.REBOUND,
